@@ -64,6 +64,16 @@ CHECKS['C18'] = dict(
          'in the evidence). Not covered: Windows ABI paths, avx2_t4 assembly (cannot be assembled by the installed nasm).',
     design='§3 C18', note=TB_ASM)
 
+CHECKS['C05'] = dict(
+    technique='static analysis: path-sensitive typestate over the clang CFG of the ring functions (load earliest / status test / advance / return), ownership and dominance rules, sibling skeleton comparison',
+    text='Decides structural necessary conditions of the in-order queue on every path of the queue functions of all nine variant TUs: who '
+         'may write the ring offsets and how; the earliest job is handed back only after a COMPLETED test or forced completion and with '
+         'exactly one advance (no lost, duplicated or partial job on any path of submit / flush / get-completed / burst submit / burst '
+         'flush); the empty marker protocol; a full queue completes the oldest job; completion loops end only on COMPLETED; job-API and '
+         'burst-API siblings agree. The full FIFO/accounting claim over all call histories is an inductive invariant over ring offsets '
+         'and is NOT decided.',
+    design='§3 C05', note=TB)
+
 NOT_APPLICABLE = {
     'C07': 'bounds of SIMD loads/stores relative to run-time lengths need relational numeric invariants over ~850 '
            'hand-written assembly functions; no sound static argument in reach (no frama-c; CSA/cppcheck do not see NASM)',
